@@ -168,13 +168,19 @@ def _warn_for_non_extern_non_static_global_variable(decl):
                       "with C it should have a storage class specifier "
                       "(usually 'extern')" % (decl.name,))
 
-def _remove_line_directives(csource):
+def _remove_line_directives(csource, line_directives=None):
     # _r_line_directive matches whole lines, without the final \n, if they
     # start with '#line' with some spacing allowed, or '#NUMBER'.  This
     # function stores them away and replaces them with exactly the string
     # '#line@N', where N is the index in the list 'line_directives'.
-    line_directives = []
+    # It can be called a second time with the list of the first call: the
+    # markers already in place are then left alone.
+    markers = line_directives is not None
+    if line_directives is None:
+        line_directives = []
     def replace(m):
+        if markers and m.group().startswith('#line@'):
+            return m.group()
         i = len(line_directives)
         line_directives.append(m.group())
         return '#line@%d' % i
@@ -201,6 +207,10 @@ def _preprocess(csource):
     def replace_keeping_newlines(m):
         return ' ' + m.group().count('\n') * '\n'
     csource = _r_comment.sub(replace_keeping_newlines, csource)
+    # As in C, a line that starts with a comment can turn out to be a
+    # line directive once the comment is replaced with a space
+    csource, line_directives = _remove_line_directives(csource,
+                                                       line_directives)
     # Remove the "#define FOO x" lines
     macros = {}
     for match in _r_define.finditer(csource):
